@@ -43,6 +43,8 @@ EDITS = {
         ("st19", ST + "tree_diff.rs", "child_patches_map.push(((old_idx, new_idx), patches, score));", "child_patches_map.push(((new_idx, old_idx), patches, score));", "verus", "state_tree"),
     ],
     "C05": [
+        ("ci01", "crates/lib/mimium-lang/src/runtime/vm.rs", "                            self.states_stack.push(closure_idx);\n", "", "verus", "vm_storage"),
+        ("ci02", "crates/lib/mimium-lang/src/runtime/vm.rs", "                            machine.execute(pos_of_f, Some(cls_i))\n                        });\n                        self.states_stack.pop();\n                    } else {", "                            machine.execute(pos_of_f, Some(cls_i))\n                        });\n                    } else {", "verus", "vm_storage"),
         ("cc01", "crates/lib/mimium-lang/src/runtime/vm.rs", "                    self.states_stack.push(cls_i);\n                    self.call_function(func, nargs, nret_req, move |machine| {\n                        machine.execute(pos_of_f, Some(cls_i))\n                    });\n                    self.states_stack.pop();\n                }\n                Instruction::Call(", "                    self.states_stack.push(cls_i);\n                    self.call_function(func, nargs, nret_req, move |machine| {\n                        machine.execute(pos_of_f, Some(cls_i))\n                    });\n                }\n                Instruction::Call(", "verus", "vm_storage"),
         ("cc02", "crates/lib/mimium-lang/src/runtime/vm.rs", "                    let pos_of_f = cls.fn_proto_pos;\n                    self.states_stack.push(cls_i);\n                    self.call_function(func, nargs, nret_req, move |machine| {\n                        machine.execute(pos_of_f, Some(cls_i))\n                    });\n                    self.states_stack.pop();\n                }\n                Instruction::Call(", "                    let pos_of_f = cls.fn_proto_pos;\n                    self.call_function(func, nargs, nret_req, move |machine| {\n                        machine.execute(pos_of_f, Some(cls_i))\n                    });\n                }\n                Instruction::Call(", "verus", "vm_storage"),
         ("al01", "crates/lib/mimium-lang/src/compiler/mirgen.rs", "                        let (v, t, s) = self.eval_expr(*item);\n                        ((v, t), s)", "                        let (v, t, s) = self.eval_expr(*item);\n                        let s = if s.len() > 1 { Vec::new() } else { s };\n                        ((v, t), s)", "verus", "mirgen_state"),
